@@ -259,6 +259,13 @@ class InverseConsistency:
                         if tier == "quick" and D == 3 and (form == "flow" or not ac):
                             continue
                         yield {"D": D, "units": units, "align_corners": ac, "form": form}
+        # an exact pair whose inverse is a *non-constant* dense field (contraction / expansion about the centre): the second
+        # leg samples the inverse field at the mapped points, with the grid's own align_corners convention
+        for D in (2, 3):
+            for ac in (True, False):
+                if tier == "quick" and D == 3 and ac:
+                    continue
+                yield {"D": D, "units": "cube", "align_corners": ac, "form": "scaling-flows"}
 
     def run(self, case, K):
         import deepali.losses.functional as L
@@ -271,6 +278,24 @@ class InverseConsistency:
         for v in s:
             K.assume(E.lt(0, v))
         g = Grid(size=size, spacing=K.tensor(s), align_corners=ac)
+        if case["form"] == "scaling-flows":
+            from contracts.c11_c13_flow import lattice
+
+            a = [K.real(f"a{i}", draw=(Fraction(1, 2), Fraction(9, 10))) for i in range(D)]
+            for v in a:
+                K.assume(E.lt(Fraction(1, 4), v))
+                K.assume(E.lt(v, 1))
+            x = lattice(shape, ac)  # (*shape, D) cube coordinates of the samples in the grid's own convention
+            fwd = np.empty((1, D) + shape, dtype=object)
+            inv = np.empty((1, D) + shape, dtype=object)
+            for idx in np.ndindex(*shape):
+                for i in range(D):
+                    fwd[(0, i) + idx] = E.mul(E.sub(a[i], 1), x[idx + (i,)])
+                    inv[(0, i) + idx] = E.mul(E.sub(E.div(1, a[i]), 1), x[idx + (i,)])
+            zero = K.call(L.inverse_consistency_loss, K.tensor(fwd), K.tensor(inv), grid=g, units=units, reduction="none")
+            if K.ensure_returns(zero):
+                K.ensure_eq("exact-pair-dense", zero, np.full(K.val(zero).shape, E.ZERO, dtype=object), text=Q17I + " [exact pair of non-constant dense fields -> zero at every sample]")
+            return
         # forward map: x -> x + t in cube coordinates (a translation; exact inverse x -> x - t); error pair: inverse off by e
         t = [K.real(f"t{i}", draw=(Fraction(-1, 8), Fraction(1, 8))) for i in range(D)]
         e = [K.real(f"e{i}", draw=(Fraction(-1, 8), Fraction(1, 8))) for i in range(D)]
